@@ -71,10 +71,14 @@ def wide_ops(ctx: Ctx, table: list) -> list[dict]:
             ops.append({"op": op, "t": c, "vb": False})
 
     n_seeds = 1 if ctx.quick else 3
+    import c06
+    natvalid = {}
+    for iban in c06.national_valid_ibans(ctx, {gen.cc_of(r): r for r in table}, rng, 1 if ctx.quick else 2, "c01"):
+        natvalid.setdefault(iban[:2], []).append(iban)
     for row in table:
-        for k in range(n_seeds):
-            mode = ["random", "low", "high"][k % 3] if not ctx.quick else "random"
-            iban = gen.valid_iban(row, rng, mode)
+        pool = [gen.valid_iban(row, rng, (["random", "low", "high"][k % 3] if not ctx.quick else "random"))
+                for k in range(n_seeds)] + natvalid.get(gen.cc_of(row), [])
+        for k, iban in enumerate(pool):
             if iban is None:
                 continue
             add(iban, ENTRY)
